@@ -190,28 +190,33 @@ struct DoubleCase
    {
       std::ostringstream o;
       o << dense(x);
-      int ok = 1;
+      const char* ok = "ok";
 
       if(x.isSetup())
       {
          std::vector<char> seen(n, 0);
 
-         for(int k = 0; k < x.size(); k++)
+         if(x.size() > n)
+            ok = "BAD-size";
+
+         for(int k = 0; k < x.size() && k < 4 * n; k++)
          {
             int i = x.index(k);
 
-            if(i < 0 || i >= n || seen[i])
-               ok = 0;
+            if(i < 0 || i >= n)
+               ok = "BAD-range";
+            else if(seen[i])
+               ok = "BAD-duplicate";
             else
                seen[i] = 1;
          }
 
          for(int i = 0; i < n; i++)
             if(x[i] != 0.0 && !seen[i])
-               ok = 0;
+               ok = "BAD-missing";
       }
 
-      o << " idx=" << (x.isSetup() ? (ok ? "ok" : "BAD") : "unset");
+      o << " idx=" << (x.isSetup() ? ok : "unset");
       return o.str();
    }
 
@@ -457,28 +462,33 @@ struct RationalCase
    {
       std::ostringstream o;
       o << dense(x);
-      int ok = 1;
+      const char* ok = "ok";
 
       if(x.isSetup())
       {
          std::vector<char> seen(n, 0);
 
-         for(int k = 0; k < x.size(); k++)
+         if(x.size() > n)
+            ok = "BAD-size";
+
+         for(int k = 0; k < x.size() && k < 4 * n; k++)
          {
             int i = x.index(k);
 
-            if(i < 0 || i >= n || seen[i])
-               ok = 0;
+            if(i < 0 || i >= n)
+               ok = "BAD-range";
+            else if(seen[i])
+               ok = "BAD-duplicate";
             else
                seen[i] = 1;
          }
 
          for(int i = 0; i < n; i++)
             if(x[i] != 0 && !seen[i])
-               ok = 0;
+               ok = "BAD-missing";
       }
 
-      o << " idx=" << (x.isSetup() ? (ok ? "ok" : "BAD") : "unset");
+      o << " idx=" << (x.isSetup() ? ok : "unset");
       return o.str();
    }
 
